@@ -79,12 +79,23 @@ func withFileSizeLimit(n uint64, f func()) {
 	if err := syscall.Setrlimit(syscall.RLIMIT_FSIZE, &lim); err != nil {
 		panic(err)
 	}
+	unlimited = old
 	defer func() {
 		if err := syscall.Setrlimit(syscall.RLIMIT_FSIZE, &old); err != nil {
 			panic(err)
 		}
 	}()
 	f()
+}
+
+var unlimited syscall.Rlimit
+
+// liftFileSizeLimit ends the fault while the operation is still running (a
+// transient failure: the disk was full for a moment).
+func liftFileSizeLimit() {
+	if err := syscall.Setrlimit(syscall.RLIMIT_FSIZE, &unlimited); err != nil {
+		panic(err)
+	}
 }
 
 // countFDs counts the open descriptors that point into dir (including deleted
@@ -106,13 +117,17 @@ func countFDs(dir string) int {
 }
 
 type pathFault struct {
-	kind string // rlimit | devfull | devnull | dir | noparent
+	kind string // rlimit | rlimit-transient | devfull | devnull | dir | noparent
 	n    uint64
+	lift uint64 // rlimit-transient: the limit is lifted once n+lift bytes were reported as written
 }
 
 func (f pathFault) String() string {
 	if f.kind == "rlimit" {
 		return fmt.Sprintf("RLIMIT_FSIZE=%d", f.n)
+	}
+	if f.kind == "rlimit-transient" {
+		return fmt.Sprintf("RLIMIT_FSIZE=%d lifted after %d bytes were handed over", f.n, f.n+f.lift)
 	}
 	return f.kind
 }
@@ -317,7 +332,7 @@ func writeFaults(r *RunCtx) {
 	c := r.ch
 	w := newWorld(r, c.Choose(3, "cfg.syn") == 0, vectorsBuild)
 	defer w.CloseAll()
-	zap.DefaultFileMergerBufferSize = []int{16, 64, 256, 4096}[c.Choose(4, "io.mergebuf")]
+	zap.DefaultFileMergerBufferSize = []int{16, 64, 256, 4096, 0}[c.Choose(5, "io.mergebuf")] // 0: the default size of the buffered writer
 	w.smallWorld(len(w.Cfg.SynFields) > 0, vectorsBuild)
 	thorough := r.Tier == "thorough"
 	maxOff := 10
@@ -356,8 +371,12 @@ func writeFaults(r *RunCtx) {
 		}
 		// no-fault run still complete
 		var again bytes.Buffer
-		if _, err := sb.WriteTo(&again); err != nil || !bytes.Equal(again.Bytes(), ref.Bytes()) {
+		nw, err := sb.WriteTo(&again)
+		if err != nil || !bytes.Equal(again.Bytes(), ref.Bytes()) {
 			r.fail("C17.retry", "WriteTo", "WriteTo after the failed attempts: err=%v, %d bytes vs %d", err, again.Len(), L)
+		}
+		if nw != int64(again.Len()) {
+			r.fail("C17.retry", "WriteTo", "WriteTo after the failed attempts returned %d, wrote %d bytes", nw, again.Len())
 		}
 		r.count("op.writeto")
 	case 1: // Persist
@@ -370,9 +389,9 @@ func writeFaults(r *RunCtx) {
 		L := ref.Len()
 		var faults []pathFault
 		for _, n := range faultOffsets(c, L, 4096, maxOff, thorough && L <= 400) {
-			faults = append(faults, pathFault{"rlimit", uint64(n)})
+			faults = append(faults, pathFault{kind: "rlimit", n: uint64(n)})
 		}
-		faults = append(faults, pathFault{"rlimit", uint64(L)}, pathFault{"devfull", 0}, pathFault{"devnull", 0}, pathFault{"dir", 0}, pathFault{"noparent", 0})
+		faults = append(faults, pathFault{kind: "rlimit", n: uint64(L)}, pathFault{kind: "devfull"}, pathFault{kind: "devnull"}, pathFault{kind: "dir"}, pathFault{kind: "noparent"})
 		for _, f := range faults {
 			p := preparePath(r, f)
 			if f.kind == "rlimit" {
@@ -469,23 +488,46 @@ func writeFaults(r *RunCtx) {
 		L := int(ref.size)
 		var faults []pathFault
 		for _, n := range faultOffsets(c, L, zap.DefaultFileMergerBufferSize, maxOff, thorough && L <= 400) {
-			faults = append(faults, pathFault{"rlimit", uint64(n)})
+			faults = append(faults, pathFault{kind: "rlimit", n: uint64(n)})
 		}
-		faults = append(faults, pathFault{"rlimit", uint64(L + 8)}, pathFault{"devfull", 0}, pathFault{"devnull", 0}, pathFault{"dir", 0}, pathFault{"noparent", 0})
+		faults = append(faults, pathFault{kind: "rlimit", n: uint64(L + 8)}, pathFault{kind: "devfull"}, pathFault{kind: "devnull"}, pathFault{kind: "dir"}, pathFault{kind: "noparent"})
+		// transient failures: the destination refuses bytes for a while and accepts
+		// them again before the merge ends
+		mb := zap.DefaultFileMergerBufferSize
+		if mb <= 0 {
+			mb = 4096
+		}
+		for k := 0; k < 3 && L > 0; k++ {
+			n := uint64(c.Choose(L, "io.transient.at"))
+			lift := []uint64{0, 1, uint64(mb), uint64(2 * mb)}[c.Choose(4, "io.transient.lift")]
+			faults = append(faults, pathFault{kind: "rlimit-transient", n: n, lift: lift})
+		}
 		engineQuiesce()
 		live0 := engineLive()
 		for _, f := range faults {
 			p := preparePath(r, f)
-			if f.kind == "rlimit" {
+			if f.kind == "rlimit" || f.kind == "rlimit-transient" {
 				prefill(r, p, L, nil)
 			}
 			var err error
 			var maps [][]uint64
 			var size uint64
-			run := func() { maps, size, err = plugin.Merge(sc.segs, sc.drops, p, nil, &statsReporter{}) }
-			if f.kind == "rlimit" {
+			sr := &statsReporter{}
+			run := func() { maps, size, err = plugin.Merge(sc.segs, sc.drops, p, nil, sr) }
+			switch f.kind {
+			case "rlimit":
 				withFileSizeLimit(f.n, run)
-			} else {
+			case "rlimit-transient":
+				lifted := false
+				f := f
+				sr.cbBytes = func(total uint64) {
+					if !lifted && total >= f.n+f.lift {
+						lifted = true
+						liftFileSizeLimit()
+					}
+				}
+				withFileSizeLimit(f.n, run)
+			default:
 				run()
 			}
 			what := fmt.Sprintf("Merge(%s-> %d bytes, buffer %d) under %s", sc.desc, L, zap.DefaultFileMergerBufferSize, f)
@@ -640,6 +682,11 @@ func (w *World) judgePathOp(op, what string, f pathFault, p string, err error, L
 		slack = 64 + L/20
 	}
 	mustFail := f.kind != "rlimit" || f.n+slack < L
+	if f.kind == "rlimit-transient" {
+		// whether a write met the limit depends on when the buffer was flushed:
+		// both outcomes are legal, each is judged on its own terms
+		mustFail = false
+	}
 	if err != nil {
 		r.count("fault." + f.kind)
 		r.NonTrivial = true
